@@ -34,7 +34,7 @@ impl Prop for C09 {
      of the case JSON".into()
   }
   fn legs(&self, _tier: Tier) -> Vec<Leg<TreeCase>> {
-    vec![Leg { name: "(outer, inner) pairs", source: Cases::Generated(Box::new(strategy), 100_000, 3_000_000) }]
+    vec![Leg { name: "(outer, inner) pairs", source: Cases::Generated(Box::new(strategy), 600_000, 8_000_000) }]
   }
   fn check(&self, case: &TreeCase) -> CheckResult {
     let Spec::SmsInner { text, name: gname, map: outer, original, inner, remove } = &case.spec else {
